@@ -1,16 +1,16 @@
 CONSTANTS
   N = 4
-  MaxKids = 1
-  MaxEdges = 4
-  Kinds = {"ptr", "typedef"}
-  AllowDecl = TRUE
+  MaxKids = 2
+  MaxEdges = 6
+  Kinds = {}
+  AllowDecl = FALSE
   GraphClass = "any"
   OrderClass = "any"
   CycleCheck = "pair"
   Pass2Cancel = "fresh"
   Outermost = "flush"
   PropagateDespiteCycle = FALSE
-  Pass2ClearsDeps = FALSE
+  Pass2ClearsDeps = TRUE
 SPECIFICATION Spec
 CHECK_DEADLOCK FALSE
-INVARIANTS TypeOK CanonIffBisim PropagatedSound CanonShape NoAbort
+INVARIANTS CanonIffBisim
